@@ -492,7 +492,14 @@ def run(ctx):
             for a, n in r.coverage.items():
                 if a.startswith("Q") and n[0] == 0:
                     raise core._tlc.MachineryError(f"action {a} never fired")
-        work = [(s, e) for s in states for e in range(len(embs))]
+        # single calls under every embedding; batched states (many calls each) under four rotating ones in thorough
+        batched = {"chains", "mean_seqs", "linear", "translated", "component"}
+        work = []
+        for i, s in enumerate(states):
+            if ctx.tier == "thorough" and s["act"][0] in batched:
+                work += [(s, (i + 3 * j) % len(embs)) for j in range(4)]
+            else:
+                work += [(s, e) for e in range(len(embs))]
 
         def chunk(items):
             part = Part()
